@@ -685,6 +685,35 @@ def seq_equal(prog, t, is_a, is_b, depth=2):
         res = closure_result(prog, r[2][1], params={2: ("tuple", (("ex",), ("ey",)))})
         return res is not None and res[0] == "call" and res[1] in EQ and EQ[res[1]] and {norm(res[2][0]), norm(res[2][1])} == {("ex",), ("ey",)}
 
+    def step_all(r):
+        # x.iter().all(|e| other.next() == Some(e)) with `other` an iterator over the second sequence: the first sequence
+        # is a prefix of the second (`all` stops at the first mismatch, `other` has then been advanced once per element)
+        if not (r[0] == "call" and r[1].endswith("Iterator::all") and len(r[2]) == 2 and r[2][1][0] == "closure"):
+            return None
+        x_, caps = r[2][0], [v_ for _, n_, v_ in r[2][1][2]]
+        if len(caps) != 1 or not ((isA(x_) and isB(caps[0])) or (isB(x_) and isA(caps[0]))):
+            return None
+        res = closure_result(prog, r[2][1], params={2: ("ex",)})
+        if res is None or res[0] != "call" or res[1] not in EQ or not EQ[res[1]] or len(res[2]) != 2:
+            return None
+        ops = [norm(res[2][0]), norm(res[2][1])]
+        nxt = lambda y: y[0] == "call" and y[1].endswith("Iterator::next") and y[2] and norm(y[2][0]) == norm(caps[0])
+        som = lambda y: y[0] == "agg" and y[2] == "Some" and len(y[3]) == 1 and norm(y[3][0][2]) == ("ex",)
+        if (nxt(ops[0]) and som(ops[1])) or (nxt(ops[1]) and som(ops[0])):
+            return caps[0]
+        return None
+
+    stepping = [atom[1] for _, atom in c.atoms() if atom[0] == "bool" and step_all(atom[1]) is not None]
+    if len(stepping) == 1:
+        other = step_all(stepping[0])
+        is_step = lambda x: norm(x) == norm(stepping[0])
+        r_f = c.assume((is_step, False)).settle().T.return_term()
+        r_t = c.assume((is_step, True)).settle().T.return_term()
+        # .. && other.next().is_none(): and the second sequence has nothing left — together, equality
+        exhausted = r_t[0] == "call" and r_t[1] == "std::option::Option::is_none" and r_t[2] and r_t[2][0][0] == "call" and r_t[2][0][1].endswith("Iterator::next") and norm(r_t[2][0][2][0]) == norm(other)
+        if r_f == ("const", "bool", False) and exhausted:
+            return True
+        return None
     has_len = any(atom[0] == "bool" and len_eq(atom[1]) is not None for _, atom in c.atoms())
     if has_len:
         f = lambda val: (lambda x: (val if len_eq(x) is True else ((not val) if len_eq(x) is False else None)))
